@@ -42,8 +42,9 @@ def compile_one(path, src, first, last, timeout=120):
         f.write(src)
     ascent = find_rlib('ascent')
     byods = find_rlib('ascent_byods_rels')
+    vmon = find_rlib('vmon')
     cmd = ['rustc', '--edition', '2021', '--crate-type', 'bin', '--emit=metadata', '--error-format=json', '-L', 'dependency=' + deps_dir(),
-           '--extern', 'ascent=' + ascent, '--extern', 'ascent_byods_rels=' + byods, '-o', path + '.rmeta', path]
+           '--extern', 'ascent=' + ascent, '--extern', 'ascent_byods_rels=' + byods, '--extern', 'vmon=' + vmon, '-o', path + '.rmeta', path]
     t0 = time.time()
     try:
         p = subprocess.run(cmd, stdout=subprocess.PIPE, stderr=subprocess.PIPE, timeout=timeout, text=True)
@@ -95,9 +96,12 @@ def compile_many(ctx, progs, timeout=120):
     """progs: [(name, macro, text)] -> list of result dicts (same order)"""
     d = os.path.join(ctx.work, 'cf')
     os.makedirs(d, exist_ok=True)
-    if not find_rlib('ascent') or not find_rlib('ascent_byods_rels'):
-        from . import setup
-        setup.warm()
+    # the rlibs must come from /repo's current working tree: (re)build them through cargo first (a no-op when fresh)
+    from . import setup
+    if not getattr(ctx, '_rlibs_fresh', False):
+        if not setup.warm():
+            raise RuntimeError('cannot build ascent from /repo: nothing to compile against')
+        ctx._rlibs_fresh = True
 
     def one(item):
         name, macro, text = item
